@@ -161,7 +161,11 @@ func runStale(c staleCase) ev.Outcome {
 		var ms []string
 		for m, n := range mism {
 			ms = append(ms, m)
-			o.Counts[fmt.Sprintf("stale[%s usedBefore=%v buildAfterAdd=%v resetEQ=%v]", m, c.UseBefore, c.BuildAfterAdd, c.ResetEQ)] = n
+			k := fmt.Sprintf("stale[%s explicitBuildAfterAdd=%v]", m, c.BuildAfterAdd)
+			if c.Which == "eq" {
+				k = fmt.Sprintf("stale[%s explicitBuildAfterAdd=%v usedBeforeAdd=%v Reset()=%v]", m, c.BuildAfterAdd, c.UseBefore, c.ResetEQ)
+			}
+			o.Counts[k] = n
 		}
 		sort.Strings(ms)
 		o.Err = fmt.Sprintf("query objects created before index.Add ignore the added shapes (usedBefore=%v buildAfterAdd=%v resetEQ=%v); methods that disagree: %s; first: %s", c.UseBefore, c.BuildAfterAdd, c.ResetEQ, strings.Join(ms, ", "), first)
